@@ -82,12 +82,18 @@ class ResurrectorSink(ClientMessageSink):
       try:
         self._varz.reconnect_attempts()
         sink.Open().get()
+        if not self._down_on:
+          # Close() ran while this attempt was in flight.
+          sink.Close()
+          return
         sink.on_faulted.Subscribe(self._OnSinkFaulted)
         self.next_sink = sink
         self._down_on = None
         self._log.info('Reopened channel.')
         return
       except GreenletExit:
+        # Killed (Close) while opening: nobody owns this sink any more.
+        sink.Close()
         return
       except:
         sink.Close()
